@@ -236,16 +236,17 @@ def c_from_func(decorating, keyword):
     base_kw = 'old(func.inj_kwargs)' if decorating else 'EMPTY_KW'
     ens = []
     if keyword:
-        ens += [('C15-positional-injections-inherited', f'same(result.inj_args, {base_args})'),
+        ens += [('C15-positional-injections-inherited', f'same_content(result.inj_args, {base_args})'),
                 ('C15-the-keyword-injection-is-added', f'all((k in result.inj_kwargs) == (k in {base_kw} or k == kwarg) for k in Strings) and same(result.inj_kwargs[kwarg][0], task) '
-                 f'and same(result.inj_kwargs[kwarg][1], key) and all(implies(k in {base_kw} and k != kwarg, same(result.inj_kwargs[k], {base_kw}[k])) for k in Strings)')]
+                 f'and same(result.inj_kwargs[kwarg][1], key)' + (f' and all(implies(k in {base_kw} and k != kwarg, same(result.inj_kwargs[k], {base_kw}[k])) for k in Strings)'
+                                                                   if decorating else ''))]      # (free function: no other key exists, by the first conjunct)
     else:
         ens += [('C15-the-positional-injection-is-appended', f'len(result.inj_args) == len({base_args}) + 1 and same(result.inj_args[len({base_args})][0], task) and '
                  f'same(result.inj_args[len({base_args})][1], key) and all(same(result.inj_args[j], {base_args}[j]) for j in range(len({base_args})))'),
-                ('C15-keyword-injections-inherited', f'same(result.inj_kwargs, {base_kw})')]
+                ('C15-keyword-injections-inherited', f'same_content(result.inj_kwargs, {base_kw})')]
     ens.append(('C15-wraps-what-was-asked', 'result.wrapped is func and same(result.deps_type, deps_type)'))
     if decorating:
-        ens.append(('C15-the-decorated-wrapper-is-not-modified', 'same(func.inj_args, old(func.inj_args)) and same(func.inj_kwargs, old(func.inj_kwargs))'))
+        ens.append(('C15-the-decorated-wrapper-is-not-modified', 'same_content(func.inj_args, old(func.inj_args)) and same_content(func.inj_kwargs, old(func.inj_kwargs))'))
     return Contract(USEF, 'Use.from_func', params=params, ensures=ens, signals={},
                     variant=('decorating-a-wrapper' if decorating else 'free-function') + ('-keyword' if keyword else '-positional'))
 
